@@ -149,6 +149,10 @@ def gen_spec(rng):
         spec["args_attr"] = shadow
         if shadow["t"] != "list_of_args":
             spec["args"] = []
+    if rng.random() < 0.12:
+        spec["cls_level"] = True        # the attributes are class constants of the exception type
+    if rng.random() < 0.08:
+        spec["str_raises"] = True       # str(exc) / repr(exc) raise
     return spec
 
 
